@@ -82,7 +82,7 @@ def w_eye(ctx, rng, i):
     seed = int(rng.integers(2 ** 31))
     alpha = float(10 ** rng.uniform(-3, 3))
     beta = float(rng.normal(0, 2)) * swing * alpha * float(rng.choice([0, 1, 1]))
-    if i % 5 == 2:        # a large pedestal: 'offsetting it by any beta'
+    if i % 3 == 2:        # a large pedestal: 'offsetting it by any beta' (every third case: combines with every pattern class, the long records included)
         beta = float(10 ** rng.uniform(1, 6)) * swing * alpha * float(rng.choice([1, -1]))
     ctx.describe(sps=sps, R=R, nslots=nslots, pattern=pattern, a=a, b=b, sigma_frac=sig_frac, bw_over_R=bw / R, numpy_seed=seed, alpha=alpha, beta=beta)
     with core.quiet():
